@@ -347,11 +347,16 @@ where
             Decoded::Packet(Packet::PublishRelease(ack), size) => {
                 if self.inner.info.borrow().inflight.contains(&ack.packet_id) {
                     // packet id is released with PUBCOMP
-                    let id = ack.packet_id.get();
+                    let id = ack.packet_id;
                     let result =
-                        self.inner.control_pkt(ProtocolMessage::pubrel(ack, size), id).await;
+                        self.inner.control_pkt(ProtocolMessage::pubrel(ack, size), 0).await;
                     if result.is_ok() {
-                        self.inner.info.borrow_mut().release_pub();
+                        // PUBREL could be repeated while the first one is processed,
+                        // publish is released once
+                        let mut info = self.inner.info.borrow_mut();
+                        if info.inflight.remove(&id) {
+                            info.release_pub();
+                        }
                     }
                     result
                 } else {
